@@ -1,5 +1,6 @@
 """C15 - loading into a populated world merges by marker; marker ids stay unique (clause)."""
-from ..core import base_ty
+import json
+from ..core import base_ty, op_place as core_op_place
 from ._saveload import closure_bodies_in, de_bodies, members
 
 ARMED = True
@@ -255,6 +256,184 @@ CMP_IMPLIES = {  # (op, a_is_id) -> relation of (counter ? id) on the TRUE edge 
 }
 
 
+def _r4_symbolic(b, I, N, idparam):
+    """Path-wise difference-bound argument for one allocate() body: every value is kept as id+k, counter0+k, max(..) or
+    unknown, d = id - counter0 is kept as an interval refined by the comparisons the path takes; only the explicit-id arm of
+    the match on the id parameter is followed.  Returns (monotone verdicts, ends-above verdicts, decisive) where a verdict
+    is (True|False|"unknown", bb)."""
+    import re as _re
+    INF = float("inf")
+    mono, ends = [], []
+    state = {"unk": False, "paths": 0}
+
+    def cint(o):
+        if isinstance(o, dict) and "const" in o:
+            m = _re.match(r"^(\d+)_[ui](8|16|32|64|128|size)$", str(o["const"]).strip())
+            if m:
+                return int(m.group(1))
+        return None
+
+    def pkey(proj):
+        return "[]" if not proj else ".".join(str(e.get("field", e.get("downcast"))) if isinstance(e, dict) else str(e) for e in proj)
+
+    def shift(v, c):
+        if v is None:
+            return None
+        if v[0] in ("I", "N"):
+            return (v[0], v[1] + c)
+        if v[0] == "max":
+            return ("max", shift(v[1], c), shift(v[2], c))
+        return None
+
+    def ge(x, y, lo, hi, strict=False):
+        """is x >= y (or x > y) known from lo <= d <= hi ?  True / False (known to fail for some d in range) / None"""
+        if x is None or y is None:
+            return None
+        if y[0] == "max":
+            a, c = ge(x, y[1], lo, hi, strict), ge(x, y[2], lo, hi, strict)
+            return True if (a is True and c is True) else (None if None in (a, c) else False)
+        if x[0] == "max":
+            a, c = ge(x[1], y, lo, hi, strict), ge(x[2], y, lo, hi, strict)
+            return True if (a is True or c is True) else (None if None in (a, c) else False)
+        k = 1 if strict else 0
+        if x[0] == y[0]:
+            return x[1] >= y[1] + k
+        if x[0] == "I":       # id + a >= counter0 + b + k  <=>  d >= b + k - a
+            return lo >= y[1] + k - x[1]
+        return hi <= x[1] - y[1] - k   # counter0 + a >= id + b + k  <=>  d <= a - b - k
+
+    def opval(o, env, cnt):
+        c = cint(o)
+        if c is not None:
+            return ("c", c)
+        pl = core_op_place(o)
+        if pl is None:
+            return None
+        key = (pl["local"], pkey(pl["proj"]))
+        if key in env:
+            return env[key]
+        if not pl["proj"] and (pl["local"], "[]") in env:
+            return env[(pl["local"], "[]")]
+        og = b.origin(pl)
+        if og == I:
+            return ("I", 0)
+        if og == N:
+            return cnt
+        if og == ("param", idparam, ()):
+            return ("idopt",)
+        return None
+
+    def walk(bb, env, cnt, lo, hi, seen):
+        if state["paths"] > 256:
+            state["unk"] = True
+            return
+        if bb in seen:
+            return
+        seen = seen | {bb}
+        env = dict(env)
+        blk = b.blocks[bb]
+        for s_ in blk["stmts"]:
+            d, rv = s_["dst"], s_["rv"]
+            k = rv["k"]
+            v = None
+            if k == "use":
+                v = opval(rv["ops"][0], env, cnt)
+            elif k == "binop" and rv.get("op", "").startswith("Add"):
+                x, y = opval(rv["ops"][0], env, cnt), opval(rv["ops"][1], env, cnt)
+                if y is not None and y[0] == "c":
+                    v = shift(x, y[1])
+                elif x is not None and x[0] == "c":
+                    v = shift(y, x[1])
+            elif k == "binop" and rv.get("op") in ("Ge", "Gt", "Le", "Lt", "Eq", "Ne"):
+                v = ("cmp", rv["op"], opval(rv["ops"][0], env, cnt), opval(rv["ops"][1], env, cnt))
+            elif k == "discriminant":
+                if b.origin(rv["place"]) == ("param", idparam, ()) or opval({"copy": rv["place"]}, env, cnt) == ("idopt",):
+                    v = ("iddiscr",)
+            if d["proj"]:
+                og = b.origin(d)
+                if og == N:
+                    old = cnt
+                    if v is None or v[0] not in ("I", "N", "max"):
+                        mono.append(("unknown", bb))
+                        state["unk"] = True
+                        cnt = None
+                    else:
+                        r = ge(v, old, lo, hi) if old is not None else None
+                        mono.append((True if r is True else ("unknown" if r is None else False), bb))
+                        cnt = v
+                continue
+            key = (d["local"], "[]")
+            for k2 in [k2 for k2 in env if k2[0] == d["local"]]:
+                del env[k2]
+            if k == "binop" and rv.get("op", "").endswith("WithOverflow"):
+                env[(d["local"], "0")] = v
+            else:
+                env[key] = v
+        t = blk["term"]
+        tk = t["k"]
+        if tk == "return":
+            state["paths"] += 1
+            r = ge(cnt, ("I", 0), lo, hi, strict=True) if cnt is not None else None
+            ends.append((True if r is True else ("unknown" if r is None else False), bb))
+            return
+        if tk == "switch":
+            dv = opval(t["discr"], env, cnt)
+            tv = {v_: x for v_, x in t["targets"]}
+            if dv == ("iddiscr",):
+                walk(tv.get(1, t["otherwise"]), env, cnt, lo, hi, seen)
+                return
+            if dv is not None and dv[0] == "cmp" and dv[2] is not None and dv[3] is not None and \
+                    {dv[2][0], dv[3][0]} == {"I", "N"} and 0 in tv:
+                op, x, y = dv[1], dv[2], dv[3]
+                if x[0] == "N":       # normalise to  id + a  OP  counter0 + b
+                    op = {"Ge": "Le", "Gt": "Lt", "Le": "Ge", "Lt": "Gt"}.get(op, op)
+                    x, y = y, x
+                c = y[1] - x[1]       # d OP c
+                tr = {"Ge": ((max(lo, c), hi), (lo, min(hi, c - 1))), "Gt": ((max(lo, c + 1), hi), (lo, min(hi, c))),
+                      "Le": ((lo, min(hi, c)), (max(lo, c + 1), hi)), "Lt": ((lo, min(hi, c - 1)), (max(lo, c), hi)),
+                      "Eq": ((max(lo, c), min(hi, c)), (lo, hi)), "Ne": ((lo, hi), (max(lo, c), min(hi, c)))}[op]
+                for (l2, h2), tgt in ((tr[0], t["otherwise"]), (tr[1], tv[0])):
+                    if l2 <= h2:
+                        walk(tgt, env, cnt, l2, h2, seen)
+                return
+            for x in sorted(set(tv.values()) | {t["otherwise"]}):
+                walk(x, env, cnt, lo, hi, seen)
+            return
+        if tk == "call":
+            c = t["callee"]
+            nm = c.get("name") if isinstance(c, dict) else None
+            v = None
+            args = [opval(a, env, cnt) for a in t["args"]]
+            if not t.get("ghost"):
+                if nm == "max" and len(args) == 2 and all(a is not None and a[0] in ("I", "N", "max") for a in args):
+                    v = ("max", args[0], args[1])
+                elif nm in ("saturating_add", "wrapping_add", "unchecked_add") and len(args) == 2 and args[1] is not None and args[1][0] == "c":
+                    v = shift(args[0], args[1][1])
+                d = t["dst"]
+                if d["proj"]:
+                    if b.origin(d) == N:
+                        state["unk"] = True
+                        cnt = None
+                else:
+                    for k2 in [k2 for k2 in env if k2[0] == d["local"]]:
+                        del env[k2]
+                    env[(d["local"], "[]")] = v
+                # a callee handed the counter by mutable reference could write it
+                for a in t["args"]:
+                    pl = core_op_place(a)
+                    if pl is not None and any(dd == N for dd in b.deps(b.origin(pl))) and "&mut" in b.ltype.get(pl["local"], ""):
+                        state["unk"] = True
+                        cnt = None
+        if t.get("target") is not None:
+            walk(t["target"], env, cnt, lo, hi, seen)
+
+    walk(0, {}, ("N", 0), -INF, INF, frozenset())
+    if not ends:
+        state["unk"] = True
+    decisive = not state["unk"] and not any(v[0] == "unknown" for v in mono + ends)
+    return mono, ends, decisive
+
+
 def r4(ctx, facts):
     r4_writers(ctx, facts)
     impls = [b for b in facts.bodies if b.trait_item == ALLOC and b.impl]
@@ -327,6 +506,14 @@ def r4(ctx, facts):
         bad = [v for v in verdicts if v[0] is False]
         unk = [v for v in verdicts if v[0] == "unknown"]
         res = False if bad else ("undetermined" if unk or not verdicts else True)
+        if bad or unk or not verdicts or any(v[0] is not True for v in mono):
+            # the pattern walk could not discharge it: decide with the path-wise difference-bound argument where that is decisive
+            smono, sends, decisive = _r4_symbolic(b, I, N, idp[0])
+            if decisive:
+                mono, verdicts = smono, sends
+                bad = [v for v in verdicts if v[0] is False]
+                unk = []
+                res = False if bad else True
         mbad = [v for v in mono if v[0] is False]
         munk = [v for v in mono if v[0] == "unknown"]
         mres = False if mbad else ("undetermined" if munk else True)
